@@ -1,5 +1,158 @@
 import ZoektModel.Basic.Proto
+import ZoektModel.C12.Spec
 namespace ZoektModel.C12
-/-- stub: no model driver for C12 yet -/
-def main : IO Unit := ZoektModel.Proto.runLines (fun _ => ZoektModel.Proto.badCase "no model driver for C12")
+open ZoektModel ZoektModel.Proto
+
+/-! line protocol
+  input : `run <delta> <compound> <compMeta> <shardMerging> <nNew> <oldMeta bits|-> <ro|-> <do|-> <fails|-> <k|end> <e2e>`
+          `ro`  = final names in the order the implementation attempted the renames (`s0,m0,…`)
+          `do`  = paths in the order the implementation worked through `toDelete` (`s1,m0,cs,cm`)
+          `fails` = indices (0-based, over the fallible renames/removes in order) of the injected failures
+          `k`   = number of rename/unlink system calls that had been issued when the directory was observed
+          `e2e` = what a real searcher over the observed directory saw of the repository: `old`, `new` or `mix`
+                  (harness oracle over search.NewDirectorySearcher); used to tie the model's loader view to the real loader:
+                  whenever the model's view of the observed directory is `old` (`new`), the real searcher must see old (new).
+                  The model's view is finer than the searcher's (it compares files, not documents), so the converse may fail.
+  output: `ops=<trace> res=<ok|err|-> dir=<listing>`
+-/
+
+def showPath : Path → String
+  | .shard n => s!"s{n}"
+  | .side n => s!"m{n}"
+  | .tmp k => s!"t{k}"
+  | .cshard => "cs"
+  | .cmeta => "cm"
+
+def parsePath (t : String) : Option Path :=
+  if t == "cs" then some .cshard
+  else if t == "cm" then some .cmeta
+  else
+    let rest := (t.drop 1).toString
+    match t.front, rest.toNat? with
+    | 's', some n => some (.shard n)
+    | 'm', some n => some (.side n)
+    | 't', some n => some (.tmp n)
+    | _, _ => none
+
+def showContent : Content → String
+  | .oldShard n => s!"O{n}"
+  | .newShard n => s!"N{n}"
+  | .oldMeta => "om"
+  | .newMeta => "nm"
+  | .compOld => "co"
+  | .compMetaAlive => "ca"
+  | .compMetaTomb => "ct"
+  | .trunc => "pt"
+  | .other => "xx"
+
+def parseContent (t : String) : Option Content :=
+  if t == "om" then some .oldMeta
+  else if t == "nm" then some .newMeta
+  else if t == "co" then some .compOld
+  else if t == "ca" then some .compMetaAlive
+  else if t == "ct" then some .compMetaTomb
+  else if t == "pt" then some .trunc
+  else if t == "xx" then some .other
+  else
+    let rest := (t.drop 1).toString
+    match t.front, rest.toNat? with
+    | 'O', some n => some (.oldShard n)
+    | 'N', some n => some (.newShard n)
+    | _, _ => none
+
+def listPaths (s : Scn) : List Path :=
+  let b := bound s
+  (List.range b).map Path.shard ++ (List.range b).map Path.side ++
+  (List.range (s.nNew + s.nSide + 2)).map Path.tmp ++ [Path.cshard, Path.cmeta]
+
+def showDir (s : Scn) (d : Dir) : String :=
+  let es := (listPaths s).filterMap fun p => (d p).map fun c => showPath p ++ "=" ++ showContent c
+  if es.isEmpty then "-" else ";".intercalate es
+
+def parseDir (t : String) : Option Dir :=
+  if t == "-" then some (fun _ => none) else
+  (t.splitOn ";").foldlM (init := (fun _ => none : Dir)) fun d e =>
+    match e.splitOn "=" with
+    | [p, c] => do
+      let p ← parsePath p
+      let c ← parseContent c
+      pure (d.set p (some c))
+    | _ => none
+
+def showOp : Op × Bool → Option String
+  | (.create p, _) => some ("c:" ++ showPath p)
+  | (.write _ _, _) => none
+  | (.rename a b, ok) => some ("r:" ++ showPath a ++ ">" ++ showPath b ++ (if ok then "+" else "!"))
+  | (.remove p, ok) => some ("u:" ++ showPath p ++ (if ok then "+" else "!"))
+
+def isSyscallRU : Op → Bool
+  | .rename _ _ => true
+  | .remove _ => true
+  | _ => false
+
+/-- entries up to and including the `k`-th rename/remove -/
+def takeRU : Nat → List (Op × Bool) → List (Op × Bool)
+  | 0, _ => []
+  | _, [] => []
+  | k + 1, e :: rest =>
+    if isSyscallRU e.1 then
+      (if k == 0 then [e] else e :: takeRU k rest)
+    else e :: takeRU (k + 1) rest
+
+/-- with k = 0 nothing of `Finish` has run, but the temp files of the shards exist already: keep leading non-RU entries -/
+def takeRU0 (k : Nat) (l : List (Op × Bool)) : List (Op × Bool) :=
+  if k == 0 then l.takeWhile (fun e => !isSyscallRU e.1) else takeRU k l
+
+def parseBits (t : String) : Option (List Bool) :=
+  if t == "-" then some [] else t.toList.mapM fun c => if c == '1' then some true else if c == '0' then some false else none
+
+def parsePaths (t : String) : Option (List Path) :=
+  if t == "-" then some [] else (t.splitOn ",").mapM parsePath
+
+def isPermOf {α} [DecidableEq α] (a b : List α) : Bool :=
+  a.length == b.length && a.all (fun x => a.count x == b.count x)
+
+def handle (line : String) : String :=
+  let (inp, impl) := splitCase line
+  match fields inp with
+  | ["run", d, c, cm, sm, n, om, ro, dor, fl, k, e2e] =>
+    match bool? d, bool? c, bool? cm, bool? sm, n.toNat?, parseBits om, parsePaths ro, parsePaths dor, natList? fl with
+    | some d, some c, some cm, some sm, some n, some om, some ro, some dor, some fl =>
+      let s : Scn := ⟨d, c, cm, sm, n, om⟩
+      if !s.WF then badCase "scenario not well-formed" else
+      let arts := artifacts s
+      let roPairs := ro.filterMap fun f => arts.find? (fun a => a.2 == f)
+      let fails := fun t => fl.contains t
+      let isEnd := k == "end"
+      let kk := k.toNat?.getD 0
+      -- trace inclusion: the observed orders must be orders `Finish` can produce
+      let model :=
+        if !(isPermOf (roPairs.map (·.2)) (arts.map (·.2)) && roPairs.length == ro.length) then
+          "ops=REJECT:renames-are-not-the-artifacts"
+        else if !isPermOf dor (if arts.isEmpty then [] else toDeleteAfter s roPairs) then
+          "ops=REJECT:removals-are-not-toDelete"
+        else
+          let (log, err) := finish s roPairs dor fails
+          let full := (tempOps s).map (fun o => (o, true)) ++ log
+          let pre := if isEnd then full else takeRU0 kk full
+          let dir := applyAll (oldDir s) (successOps pre)
+          let ops := pre.filterMap showOp
+          s!"ops={if ops.isEmpty then "-" else ",".intercalate ops} res={if isEnd then (if err then "err" else "ok") else "-"} dir={showDir s dir}"
+      -- the property, evaluated on the implementation's observation
+      match fields impl with
+      | [_, ires, idir] =>
+        if !(ires.startsWith "res=" && idir.startsWith "dir=") then badCase "impl fields" else
+        match parseDir (idir.drop 4).toString with
+        | none => badCase "impl dir"
+        | some id =>
+          let mv := classify s id
+          if mv != "mix" && mv != e2e then specFail model ("loader-model:" ++ mv ++ "-but-searcher-sees-" ++ e2e) else
+          match checkP s isEnd ((ires.drop 4).toString == "ok") (!fl.isEmpty) id with
+          | some key => specFail model key
+          | none => answer model
+      | _ => badCase "impl output"
+    | _, _, _, _, _, _, _, _, _ => badCase "fields"
+  | _ => badCase "op"
+
+def main : IO Unit := runLines handle
 end ZoektModel.C12
